@@ -1,4 +1,5 @@
 import Goat.Gen.Tables
+import Goat.Gen.Facts
 /-!
 # Model of goatlang's numeric values (value.go: type tags, `mixType`, `opAdd … opBitXor`,
 comparisons, `assign`, `convert`; do.go: INCDEC, NEGATE, BITCOMPLEMENT, CAST)
